@@ -6,6 +6,12 @@ import vlib
 
 ALPHABET = [b'A', b'Q', b'g', b'=', b'?', b'_', b' ', b'\n', b'\t', b'/', b'+', b'-', b'0', b'F']
 OPS = ['b64', 'b64raw', 'qp', 'qph', 'r2047']
+# The same entry points against the RFC readings of Spec/DecodeRFC.lean.  The specification side answers only where
+# C16_qp_vs_rfc / C16_rfc2047_vs_rfc apply (QpLFOnly / WellFormed2047; NOTWF elsewhere); outside that domain the RFC
+# reading is evaluated too and the differences are COUNTED (coverage 'rfc_reading'), they are observations.
+RFC_OPS = {'qprfc': 'qprfcall', 'qphrfc': 'qphrfcall', 'r2047rfc': 'r2047rfcall'}
+# second alphabet for the RFC ops: CR, and enough to write `=CRLF`, `= LF`, `=?x?q?A?=` and a glued / blank-holding word
+ALPHABET_RFC = [b'=', b'?', b'\r', b'\n', b' ', b'\t', b'q', b'B', b'A', b'4', b'x', b'\x0b']
 
 
 def exhaustive(maxlen):
@@ -75,6 +81,142 @@ def structured(rng, count):
     return out
 
 
+def eightbit():
+    """Every byte 0x80..0xff where a decoder must not take it for a 7-bit character (tools/gen_msg.py: replacing the first / a middle /
+    the last character of valid base64 of three paddings, in and around the padding, as a group of four; literal, behind `=` and
+    around soft breaks in quoted-printable) - deterministic, whatever the seed.  The exhaustive alphabet above is 7-bit."""
+    import gen_msg
+    out = []
+    for b in gen_msg.EIGHTBIT:
+        for text in (b'hello world, x\n', b'hello world, xy\n', b'hello world, xyz\n'):
+            out += [body.replace(b'\n', b'') for _, body in gen_msg.b64_with_8bit(text, b)]      # (one C string, no line structure: the `b64` op)
+            out += [body for _, body in gen_msg.b64_with_8bit(text, b)[:3]]
+        out += [body for _, body in gen_msg.qp_with_8bit(b'caf\xe9 = 1 \n long ' + b'x' * 70 + b'\n', b)]
+        out += [b'=?utf-8?B?' + bytes([b]) + b'GVsbG8=?=', b'=?utf-8?B?aGVs' + bytes([b]) + b'G8=?=', b'=?utf-8?Q?a' + bytes([b]) + b'=41?=']
+    return sorted(set(nonul(s) for s in out))
+
+
+LWS = [b' ', b'\t', b'  ', b'\n ', b'\r\n ', b' \t']
+CHARSETS = [b'utf-8', b'ISO-8859-1', b'us-ascii', b'x', b'KOI8-R', b'utf-8*en']
+
+
+def qword(rng, w):
+    """A well-formed Q word for the octets w."""
+    q = b''.join(b'_' if c == 32 and rng.random() < 0.7 else
+                 (bytes([c]) if 33 <= c <= 126 and c not in b'=?_' and rng.random() < 0.7 else b'=%02X' % c) for c in w)
+    return b'=?' + rng.choice(CHARSETS) + b'?' + rng.choice([b'Q', b'q']) + b'?' + (q or b'=20') + b'?='
+
+
+def bword(rng, w):
+    return b'=?' + rng.choice(CHARSETS) + b'?' + rng.choice([b'B', b'b']) + b'?' + base64.b64encode(w or b' ') + b'?='
+
+
+def plain_atom(rng):
+    return rng.choice([b'plain', b'Re:', b'?=', b'=', b'a=b', b'?', b'x?y', b'(c)', b'<a@b>', b'\xe4\xf6', b'=3D', b'_'])
+
+
+def structured_rfc(rng, count):
+    """Inputs for what C16_qp_vs_rfc / C16_rfc2047_vs_rfc talk about: RFC line ends and transport padding in
+    quoted-printable; well-formed header values (words separated by linear white space, plain atoms between them) and
+    the same with ONE defect of each kind the theorems' hypotheses exclude."""
+    out = []
+    for _ in range(count):
+        kind = rng.randrange(4)
+        raw = bytes(rng.randrange(256) for _ in range(rng.randrange(0, 24)))
+        if kind == 0:      # quoted-printable with LF / CRLF line ends, soft breaks of every form, stray CR and blanks
+            s = bytearray()
+            for b in raw:
+                r = rng.random()
+                if r < 0.3:
+                    s += b'=%02X' % b
+                elif r < 0.5:
+                    s += rng.choice([b'=\n', b'=\r\n', b'= \n', b'=\t\n', b'= \t \r\n', b'=\r', b'= ', b'=\t', b'=\r\r\n', b'= \r', b'==\n'])
+                elif r < 0.6:
+                    s += rng.choice([b'\n', b'\r\n', b' \n', b'\r', b' ', b'\t'])
+                elif r < 0.65:
+                    s += b'_'
+                else:
+                    s.append(b)
+            out.append(nonul(s))
+            continue
+        # a well-formed value
+        parts = []
+        n = rng.randrange(1, 6)
+        for i in range(n):
+            w = bytes(rng.choice(b'abc xyz\xe4\xf6=?_') if rng.random() < 0.9 else rng.randrange(1 if kind == 1 else 0, 256)
+                      for _ in range(rng.randrange(1, 7)))
+            r = rng.random()
+            parts.append(qword(rng, w) if r < 0.4 else bword(rng, w) if r < 0.75 else plain_atom(rng))
+        seps = [rng.choice(LWS) for _ in range(n - 1)]
+        if kind == 3 and rng.random() < 0.7:    # ... with one defect
+            i = rng.randrange(n)
+            what = rng.randrange(9)
+            if what == 0 and seps:
+                seps[rng.randrange(len(seps))] = rng.choice([b'', b' \x0b ', b'\x0c', b'\x0b'])     # glued / VT, FF
+            elif what == 1:
+                parts[i] = parts[i].replace(b'?', b'??', 1) if rng.random() < 0.5 else b'=??' + parts[i][parts[i].find(b'?', 2) + 1:]  # empty charset
+            elif what == 2:
+                parts[i] = rng.choice([b'x', b'(', b'"']) + parts[i]                            # glued to text before
+            elif what == 3:
+                parts[i] = parts[i] + rng.choice([b'x', b')', b'.', b'?=', b'='])               # glued to text behind
+            elif what == 4:
+                k = parts[i].rfind(b'?=')
+                parts[i] = parts[i][:k] + rng.choice([b' ', b'\t', b'?', b' b', b'a b']) + parts[i][k:]   # blank / ? in the text
+            elif what == 5:
+                parts[i] = rng.choice([b'=?', b'=?x', b'=?x?', b'=?x?q', b'=?x?q?', b'=?x?q?a', b'=?x?q?a?', b'=?x?z?a?=', b'=?x?qq?a?=',
+                                       b'=?x?q??=', b'=?a b?q?c?=', b'=?a.b?q?c?=', b'=?x?b?YQ?=', b'=?x?b?YQ=?=', b'=?x?b?YR==?='])
+            elif what == 6:
+                parts[i] = bword(rng, rng.choice([b'a\0b', b'\0', b'ab\0']))                     # NUL inside a B word
+            elif what == 7:
+                parts[i] = qword(rng, rng.choice([b'a\0b', b'\0']))                              # NUL inside a Q word
+            else:
+                parts[i] = parts[i].replace(b'=', b'=\r\n', 1)
+        s = bytearray()
+        if rng.random() < 0.3:
+            s += rng.choice(LWS)
+        for i, p_ in enumerate(parts):
+            s += p_
+            if i < len(seps):
+                s += seps[i]
+        if rng.random() < 0.2:
+            s += rng.choice(LWS)
+        out.append(nonul(s))
+    return out
+
+
+def rfc_stage(rep, harness, strings):
+    """The three entry points against the RFC readings: violations inside the theorems' domain are failing inputs
+    (through Differential.run); outside it the RFC reading is evaluated as well and agreement / difference counted."""
+    reqs = [(op, s) for s in strings for op in RFC_OPS]
+    d = vlib.Differential(rep, [harness], name='h_decode')
+    impl, model, spec = d.run(reqs, H=H)
+    d.conclude('decode.c <-> Model/Decode.lean (entry points against the RFC readings)')
+    outside = [i for i, sp in enumerate(spec) if sp is None and H(reqs[i])]
+    lines = ['S ' + d.line((RFC_OPS[reqs[i][0]],) + tuple(reqs[i][1:])) for i in outside]
+    rfc = vlib.run_batch(d.driver, lines)
+    pw = vlib.run_batch(d.driver, ['S ' + d.line(('r2047pw',) + tuple(reqs[i][1:])) for i in outside if reqs[i][0] == 'r2047rfc'])
+    stat = {op: {'in_domain': 0, 'in_domain_decoding': 0, 'outside_domain': 0, 'outside_and_differs_from_rfc_reading': 0, 'samples_differing': []}
+            for op in RFC_OPS}
+    for i, r in enumerate(reqs):
+        if spec[i] is not None:
+            stat[r[0]]['in_domain'] += 1
+            if impl[i] != vlib.hexs(r[1]):
+                stat[r[0]]['in_domain_decoding'] += 1
+    for i, v in zip(outside, rfc):
+        st = stat[reqs[i][0]]
+        st['outside_domain'] += 1
+        if impl[i] != v:
+            st['outside_and_differs_from_rfc_reading'] += 1
+            if len(st['samples_differing']) < 8 and len(reqs[i][1]) <= 24:
+                st['samples_differing'].append({'input': repr(reqs[i][1]), 'implementation': impl[i], 'rfc_reading': v})
+    ipw = [i for i in outside if reqs[i][0] == 'r2047rfc']
+    stat['r2047rfc']['outside_and_differs_from_per_word_reading'] = sum(1 for i, v in zip(ipw, pw) if impl[i] != v)
+    stat['note'] = ('in_domain: QpLFOnly / WellFormed2047 holds and implementation = model = RFC reading was CHECKED (a difference is a '
+                    'failing input); outside_domain: hypothesis of C16_qp_vs_rfc / C16_rfc2047_vs_rfc fails, differences are the observations '
+                    'listed in Props/C16.lean (C16_*_deviation_*), counted here, never reported')
+    return d, stat
+
+
 def H(req):
     return all(0 not in a for a in req[1:])
 
@@ -92,10 +234,18 @@ def run(rep):
     strings = list(exhaustive(L))
     n_ex = len(strings)
     strings += structured(rng, nrand)
+    n_8bit = len(eightbit())
+    strings += eightbit()
     reqs = [(op, s) for s in strings for op in OPS]
     d = vlib.Differential(rep, [harness], name='h_decode')
     impl, model, spec = d.run(reqs, H=H)
+    # the RFC readings: exhaustive over the second alphabet (with CR, VT), the structured families of both generators
+    L2 = 4 if rep.tier == 'quick' else 5
+    rfc_strings = [b''.join(t) for n in range(L2 + 1) for t in itertools.product(ALPHABET_RFC, repeat=n)]
+    n_ex2 = len(rfc_strings)
+    rfc_strings += structured_rfc(rng, nrand // 2) + strings[n_ex:n_ex + nrand // 4]
     d.conclude('decode.c <-> Model/Decode.lean')
+    d2, rfc_stat = rfc_stage(rep, harness, rfc_strings)
     vlib.lean_conclude(rep)
     distinct = len(set((r[0], i) for r, i in zip(reqs, impl)))
     nontriv = set()
@@ -103,18 +253,22 @@ def run(rep):
         if i not in ('NONE', '-') and vlib.hexs(r[1]) != i and ('OK ' + vlib.hexs(r[1])) != i:
             nontriv.add(r)
     rep.coverage.update({
-        'evaluations': d.evals,
+        'evaluations': d.evals + d2.evals,
         'distinct_nontrivial': len(nontriv),
         'rule': 'all strings of length <= %d over the 14-symbol alphabet %r (exhaustive, %d strings) plus %d structured random strings '
-                '(seeded), each through 5 decoder entry points; non-trivial = the implementation decoded something (output differs '
-                'from input and is not empty/failure); distinct by (op, input)' % (L, b''.join(ALPHABET), n_ex, nrand),
+                '(seeded) plus %d strings with every byte 0x80..0xff at the start / middle / end / padding of valid base64, inside quoted-printable '
+                'and inside encoded words (deterministic), each through 5 decoder entry points; non-trivial = the implementation decoded something (output differs '
+                'from input and is not empty/failure); distinct by (op, input)' % (L, b''.join(ALPHABET), n_ex, nrand, n_8bit),
         'exhaustive': True,
         'samples': [{'request': d.line(reqs[i]), 'implementation': impl[i], 'model': model[i], 'specification': spec[i]}
                     for i in rng.sample(range(len(reqs)), 6)],
-        'correspondence_mismatches': len(d.corr_mismatch),
-        'spec_failures': len(d.spec_fail),
-        'sanitizer_faults': len(d.faults),
+        'correspondence_mismatches': len(d.corr_mismatch) + len(d2.corr_mismatch),
+        'spec_failures': len(d.spec_fail) + len(d2.spec_fail),
+        'sanitizer_faults': len(d.faults) + len(d2.faults),
         'outcome_histogram': {'NONE': sum(1 for i in impl if i == 'NONE'), 'decoded': len(nontriv)},
+        'rfc_reading': dict(rfc_stat, rule='all strings of length <= %d over the 12-symbol alphabet %r (%d strings) plus %d structured strings '
+                                           '(RFC line ends / transport padding; well-formed header values and the same with one defect), each through '
+                                           'qprfc, qphrfc, r2047rfc (%d evaluations)' % (L2, b''.join(ALPHABET_RFC), n_ex2, len(rfc_strings) - n_ex2, d2.evals)),
     })
     rep.assumptions += ['inputs are C strings (no NUL)', 'locale C or C.utf8']
 
